@@ -105,3 +105,18 @@ Example C04_instance :
              | _ => False end
   | _ => False end.
 Proof. vm_compute. repeat split. Qed.
+
+(* the key the cache files a template under is what Model/Cache.v transcribes: getShard of both caches, statement by
+   statement, REGENERATED from the source (Gen/CacheKey.v).  key = address || big-endian 16-bit id (injective: cache_key_inj
+   above), shard = FNV-1-32(key) mod shardNo, map key = hex(key).  Any edit of getShard breaks this equality. *)
+From VF Require Gen.CacheKey.
+Definition get_shard_transcribed : list string :=
+  ["func(id uint16, addr net.IP) (*TemplatesShard, string)"; "b := make([]byte, 2)"; "binary.BigEndian.PutUint16(b, id)";
+   "key := append(addr, b...)"; "hash := fnv.New32()"; "hash.Write(key)"; "hSum32 := hash.Sum32()";
+   "return m[uint(hSum32)%uint(shardNo)], hex.EncodeToString(key)"]%string.
+Theorem C04_get_shard_is_the_transcribed_one : forall p l, In (p, l) Gen.CacheKey.get_shard_src -> l = get_shard_transcribed.
+Proof.
+  intros p l Hin. unfold Gen.CacheKey.get_shard_src in Hin. cbn [In] in Hin.
+  repeat (destruct Hin as [Hin|Hin]; [injection Hin as _ <-; reflexivity|]). contradiction.
+Qed.
+Print Assumptions C04_get_shard_is_the_transcribed_one.
